@@ -4,7 +4,7 @@ property) — unclaimed properties are listed under not_applicable."""
 import json
 ids = [json.loads(l)['id'] for l in open('/verif/properties.jsonl')]
 reg = json.load(open('/verif/tools/registry.json'))
-claimed = sorted(reg['checks'])
+claimed = sorted(c for c in reg['checks'] if c in reg.get('verified', []))
 checks = []
 for pid in claimed:
     c = reg['checks'][pid]
